@@ -23,7 +23,7 @@ struct Pending {
 }
 
 fn one_tree(t: &Rose, rng: &mut Rng, reqs: &mut Vec<String>, pend: &mut Vec<Pending>, rep: &mut Report) {
-    let how = *rng.pick(&["api", "bfs", "tomb", "parse", "grown", "bottomup"]);
+    let how = *rng.pick(&["api", "bfs", "tomb", "tomb2", "parse", "grown", "bottomup"]);
     let seed = rng.next() % 100_000;
     let case = format!("real.build\t{how}\t{}\t{seed}", t.canon());
     let mut st = crate::real::RealState::new();
